@@ -327,6 +327,33 @@ def rule_u1(ctx):
     ], accept_desc="ending the iteration")
 
 
+def rule_s1(ctx, F):
+    """S1: the front layer is always the one with the earliest pending boundary.  HighlightIter::next works on
+    `layers[0]`; consuming a capture from it moves its position, so before the loop looks at `layers[0]` again (or the
+    call returns) the layers are re-sorted — by sort_layers() or by emit_event(), which sorts.  Otherwise a layer that ran
+    ahead keeps the front and flushes source text across another layer's pending end: an injected language's highlight
+    then covers text outside its content."""
+    nxt = [f for f in F.fn_list if f.name.startswith("<HighlightIter") and f.name.endswith("::next")]
+    if not nxt:
+        return
+    fn = nxt[0]
+    take = [pt for pt, c, d in calls_named(fn, "Peekable", "::next")]
+    sort = [pt for pt, c, d in calls_named(fn, "sort_layers")] + [pt for pt, c, d in calls_named(fn, "emit_event")]
+    head = [pt for pt, c, d in calls_named(fn, "Peekable", "::peek")]
+    head = sorted(head)[:1]           # the look at layers[0] at the top of the main loop
+    # an error return ends the whole iteration: no order to keep
+    for pt, e in fn.points():
+        for x in own_walk(e):
+            if x.get("k") == "assign" and show(x["l"]) == "_0" and "Result::Err" in rsrules.deep_text(fn, x["r"], user=False):
+                sort.append(pt)
+    ctx.floor("captures consumed in HighlightIter::next", len(take), 3)
+    if not sort or not head:
+        ctx.bad("S1", "next:layers-resorted-after-consuming", "HighlightIter::next no longer has sort_layers()/emit_event() or the peek at the top of its loop")
+        return
+    ctx.after("S1", "next:layers-resorted-after-consuming", fn, take, sort, "after a capture is consumed the layers are re-sorted before the front layer is consulted again or the call returns",
+              stop_pts=head, retrigger_is_stop=False)
+
+
 def rule_l1(ctx, F):
     """L1: a name resolved as a local reference is highlighted like its definition: the emitted
     highlight is `reference_highlight.or(current_highlight)`; a definition's slot receives the highlight
@@ -474,6 +501,7 @@ def run(ctx):
     rule_p6(ctx, F)
     rule_p7(ctx, F)
     rule_u1(ctx)
+    rule_s1(ctx, F)
     rule_l1(ctx, F)
     rule_g2(ctx, F)
     return ctx.finish(
